@@ -365,6 +365,9 @@ class ANMLReader:
             goal = self._parse_expression(expression, parameters, types_map)
             if up_interval == global_end:
                 self._problem.add_goal(goal)
+            elif TK_ALL in find_strings(interval, {TK_ALL}):
+                # "[all] exp;" outside of an action is how the ANMLWriter writes a state invariant
+                self._problem.add_state_invariant(goal)
             else:
                 self._problem.add_timed_goal(up_interval, goal)
 
